@@ -146,7 +146,7 @@ func DrawSimCase(ch Chooser, prop string) *SimCase {
 	// shadowing), respell its types (aliases, unrollings, isomorphic copies), or - for the
 	// properties quantified over every *accepted* program - apply a single-edit mutation
 	stage := ch.Intn(8)
-	if stage >= 6 && prop != "C01" {
+	if (stage == 7 && prop != "C01") || (stage == 6 && prop != "C01" && prop != "C02") {
 		stage = 0
 	}
 	switch stage {
@@ -329,6 +329,12 @@ func evalRun(c *SimCase, idx int, cfg sim.Config, res *sim.Result, ri refInfo, i
 			// the literal statement still applies when REF is unavailable
 			if cfg.Mode == process.NORMAL_ASYNC && senders > 0 {
 				add("C02", "stuck", fmt.Sprintf("async: %d senders parked at quiescence", senders), "")
+			}
+			// a structural mutant (a use removed or doubled, a branch omitted, drop/wait exchanged, a mode
+			// changed) keeps the types of the unconsumed roots, which are hereditarily positive in
+			// this generator profile: nothing may be left waiting to receive, REF or no REF
+			if strings.HasPrefix(c.Mutated, "structure: ") && !c.Opts.NegativeRoots && len(others) > 0 {
+				add("C02", "stuck", fmt.Sprintf("%s: %d tasks waiting to receive at quiescence %v in an accepted structural mutant (%s)", modeName[cfg.Mode], len(others), others, c.Mutated), "")
 			}
 		} else {
 			if len(others) != ri.live {
